@@ -200,7 +200,7 @@ fn main() {
         return;
     }
     if id == "exrun" {
-        // check exrun <n> <seed> <dx|vk|msl> [ex] [file <path>]: differential execution over generated programs (debugging aid)
+        // check exrun <n> <seed> <dx|vk|msl> [ex] [entry] [file <path>]: differential execution over generated programs (debugging aid)
         install_panic_hook();
         let n: usize = args.get(1).and_then(|s| s.parse().ok()).unwrap_or(200);
         let seed: u64 = args.get(2).and_then(|s| s.parse().ok()).unwrap_or(1);
@@ -216,14 +216,21 @@ fn main() {
             }
         }
         for text in texts {
-            match exec::check_exec(&text, tgt, seed, 3) {
+            let entry_mode = args.iter().any(|a| a == "entry");
+            match if entry_mode { exec::check_exec_entry(&text, tgt, seed, 3) } else { exec::check_exec(&text, tgt, seed, 3) } {
                 Verdict::Pass { labels, .. } => {
                     *stats.entry("PASS".into()).or_default() += 1;
                     for l in labels {
                         *stats.entry(format!("  label {}", l)).or_default() += 1;
                     }
                 }
-                Verdict::Skip(r) => *stats.entry(format!("SKIP {}", r)).or_default() += 1,
+                Verdict::Skip(r) => {
+                    let key = format!("SKIP {}", r);
+                    if !stats.contains_key(&key) && args.iter().any(|a| a == "exskip") {
+                        println!("=== {}\n--- source\n{}", key, text);
+                    }
+                    *stats.entry(key).or_default() += 1
+                }
                 Verdict::Fail { signature, detail } => {
                     let key = format!("FAIL {}", signature);
                     if !stats.contains_key(&key) && args.iter().any(|a| a == "ex") {
